@@ -43,17 +43,36 @@ const (
 type c05Ent struct {
 	Id  string
 	typ string
+	// link fields the entity carries (field name -> linked ids); persisted by the store's strategy with
+	// PersistContext.SetLinkedIds (c05_strategy.go); nil = the entity has no link fields
+	sets map[string][]string
 }
 
 func (e *c05Ent) GetId() string         { return e.Id }
 func (e *c05Ent) SetId(id string)       { e.Id = id }
 func (e *c05Ent) GetEntityType() string { return e.typ }
 
-type c05Strategy struct{ typ string }
+// c05Strategy: the entity strategy of a store.  Like the strategies of the repository's test stores (and of
+// ziti), a child store's strategy first runs the parent strategy on ctx.GetParentContext() and then persists its
+// own fields; the link fields a store owns are persisted with SetLinkedIds when the entity carries them.
+type c05Strategy struct {
+	typ    string
+	parent *c05Strategy
+	fields []string // the link fields (plain link collections) registered on this store
+}
 
-func (s c05Strategy) NewEntity() *c05Ent                           { return &c05Ent{typ: s.typ} }
-func (s c05Strategy) FillEntity(*c05Ent, *boltz.TypedBucket)       {}
-func (s c05Strategy) PersistEntity(*c05Ent, *boltz.PersistContext) {}
+func (s *c05Strategy) NewEntity() *c05Ent                     { return &c05Ent{typ: s.typ} }
+func (s *c05Strategy) FillEntity(*c05Ent, *boltz.TypedBucket) {}
+func (s *c05Strategy) PersistEntity(e *c05Ent, ctx *boltz.PersistContext) {
+	if s.parent != nil {
+		s.parent.PersistEntity(e, ctx.GetParentContext())
+	}
+	for _, f := range s.fields {
+		if ids, ok := e.sets[f]; ok {
+			ctx.SetLinkedIds(f, append([]string{}, ids...))
+		}
+	}
+}
 
 type c05Store struct {
 	*boltz.BaseStore[*c05Ent]
@@ -64,6 +83,7 @@ type c05Store struct {
 	rcSym    boltz.EntitySetSymbol
 	links    boltz.LinkCollection
 	rcLinks  boltz.RefCountedLinkCollection
+	strat    *c05Strategy
 	basePath []string
 	sub      []string // bucket path between the entity bucket and the field buckets (child stores, c05_hier.go)
 }
@@ -85,15 +105,16 @@ type c05World struct {
 }
 
 func c05NewStore(base, typ, field, rcField string) *c05Store {
+	strat := &c05Strategy{typ: typ}
 	def := boltz.StoreDefinition[*c05Ent]{
 		EntityType:     typ,
-		EntityStrategy: c05Strategy{typ: typ},
+		EntityStrategy: strat,
 		EntityNotFoundF: func(id string) error {
 			return boltz.NewNotFoundError(typ, "id", id)
 		},
 		BasePath: []string{base},
 	}
-	st := &c05Store{BaseStore: boltz.NewBaseStore(def), typ: typ, field: field, rcField: rcField, basePath: []string{base, typ}}
+	st := &c05Store{BaseStore: boltz.NewBaseStore(def), typ: typ, field: field, rcField: rcField, basePath: []string{base, typ}, strat: strat}
 	st.InitImpl(st)
 	return st
 }
@@ -134,21 +155,26 @@ func c05Side(sd int) string {
 
 func (op c05Op) String() string {
 	var b strings.Builder
-	fmt.Fprintf(&b, "%s %s %s", op.kind, c05Side(op.sd), hxs(op.a))
+	fmt.Fprintf(&b, "%s %s %s", op.kind, c05Side(op.sd), c05Hx(op.a))
 	switch op.kind {
 	case "AL", "RL", "SL":
 		fmt.Fprintf(&b, " %d", len(op.keys))
 		for _, k := range op.keys {
-			b.WriteString(" " + hxs(k))
+			b.WriteString(" " + c05Hx(k))
 		}
 	case "A1", "R1", "I", "DC":
-		b.WriteString(" " + hxs(op.keys[0]))
+		b.WriteString(" " + c05Hx(op.keys[0]))
 	case "SC":
-		fmt.Fprintf(&b, " %s %d", hxs(op.keys[0]), op.count)
+		fmt.Fprintf(&b, " %s %d", c05Hx(op.keys[0]), op.count)
+	case "CS", "US": // c05_strategy.go: count = the pair whose link field the entity carries, keys = its value
+		fmt.Fprintf(&b, " %d %d", op.count, len(op.keys))
+		for _, k := range op.keys {
+			b.WriteString(" " + c05Hx(k))
+		}
 	case "DW": // c05_hier.go: count = 1 -> filter true, else membership in keys
 		fmt.Fprintf(&b, " %d %d", op.count, len(op.keys))
 		for _, k := range op.keys {
-			b.WriteString(" " + hxs(k))
+			b.WriteString(" " + c05Hx(k))
 		}
 	}
 	return b.String()
@@ -235,7 +261,7 @@ func c05Idx(u []string, id string) string {
 			return strconv.Itoa(i)
 		}
 	}
-	return "?" + hxs(id)
+	return "?" + c05Hx(id)
 }
 
 func c05Join(xs []string) string {
@@ -424,11 +450,11 @@ func c05UniText(uA, uB []string) string {
 	var b strings.Builder
 	fmt.Fprintf(&b, "%d", len(uA))
 	for _, x := range uA {
-		b.WriteString(" " + hxs(x))
+		b.WriteString(" " + c05Hx(x))
 	}
 	fmt.Fprintf(&b, " %d", len(uB))
 	for _, x := range uB {
-		b.WriteString(" " + hxs(x))
+		b.WriteString(" " + c05Hx(x))
 	}
 	return b.String()
 }
@@ -466,7 +492,7 @@ func (t *c05Tokens) int() int {
 	}
 	return n
 }
-func (t *c05Tokens) id() string { return string(unhx(t.next())) }
+func (t *c05Tokens) id() string { return c05Unhx(t.next()) }
 func (t *c05Tokens) ids() []string {
 	n := t.int()
 	out := make([]string, 0, n)
@@ -962,7 +988,7 @@ func c05IdsText(xs []string) string {
 	var b strings.Builder
 	fmt.Fprintf(&b, "%d", len(xs))
 	for _, x := range xs {
-		b.WriteString(" " + hxs(x))
+		b.WriteString(" " + c05Hx(x))
 	}
 	return b.String()
 }
@@ -979,7 +1005,7 @@ func c05EmitSetLinks(emit func(string), uA, uB []string, sd int, a string, prese
 			}
 		}
 		c05AllLists(alphabet, maxLen, func(req []string) {
-			emit(fmt.Sprintf("S %s %s %s %s %s %s", c05UniText(uA, uB), c05Side(sd), hxs(a), c05IdsText(cur), c05IdsText(req), c05IdsText(present)))
+			emit(fmt.Sprintf("S %s %s %s %s %s %s", c05UniText(uA, uB), c05Side(sd), c05Hx(a), c05IdsText(cur), c05IdsText(req), c05IdsText(present)))
 			n++
 		})
 	}
@@ -1019,7 +1045,7 @@ func runC05(o *opts) error {
 				}
 			}()
 			switch t.next() {
-			case "H":
+			case "H", "Z": // Z: a history whose ids sit at the key size limits of the storage (c05_strategy.go)
 				obs = runner.runHistory(t)
 			case "S":
 				obs = runner.runSetLinks(t)
@@ -1150,6 +1176,27 @@ func runC05(o *opts) error {
 		runLine(line)
 	}
 	stats["kind_histories"] = nk
+	// 6. creates / updates whose entity strategy writes a link field with SetLinkedIds, through root and child
+	// stores, also with targets that do not exist (c05_strategy.go); T and K topologies alternate
+	ns := 700
+	if o.thorough() {
+		ns = 10000
+	}
+	if o.n > 0 {
+		ns = o.n
+	}
+	for i := 0; i < ns; i++ {
+		sg := &c05HGen{r: r, stats: stats, kinded: i%2 == 1, strat: true}
+		line, h := sg.genCase(i / 2)
+		for _, tx := range h {
+			txs++
+			ops += len(tx)
+		}
+		runLine(line)
+	}
+	stats["strategy_histories"] = ns
+	// 7. ids at the key size limits of the storage on either side of a link, both kinds of collection
+	stats["key_limit_histories"] = c05ZCases(o.thorough(), runLine)
 	stats["histories"] = nh
 	stats["transactions"] = txs
 	stats["operations"] = ops
